@@ -1306,19 +1306,19 @@ Section TabConv.
     destruct (_ && _ && _); [apply sort_nodes_brel|]; exact H.
   Qed.
 
-  Lemma r_convert_import_items c nodes nodes' mr :
+  Lemma r_convert_import_items fs c nodes nodes' mr :
     Forall2 brel nodes nodes' ->
-    mrel rd (convert_import_items swidth c1 c nodes mr) (convert_import_items swidth c2 c nodes' mr).
+    mrel rd (convert_import_items swidth c1 fs c nodes mr) (convert_import_items swidth c2 fs c nodes' mr).
   Proof.
     intros Hn. unfold convert_import_items. apply (mrel_bind rlst'); [|lst_finish].
-    apply r_lst_process; [apply rlst_new|apply import_items_final_brel; exact Hn|].
+    apply r_lst_process; [apply rlst_with_fold_style, rlst_new|apply import_items_final_brel; exact Hn|].
     intros c0 b b' Hb. bsame Hb.
     destruct (bk b); try (apply mrel_ret; constructor);
       (apply (mrel_bind rd); [apply brel_call; exact Hb|]; intros d d' Hd; apply mrel_ret; constructor; exact Hd).
   Qed.
 
-  Lemma r_convert_import kids kids' c :
-    Forall2 brel kids kids' -> mrel rd (convert_import swidth c1 kids c) (convert_import swidth c2 kids' c).
+  Lemma r_convert_import fs kids kids' c :
+    Forall2 brel kids kids' -> mrel rd (convert_import swidth c1 fs kids c) (convert_import swidth c2 fs kids' c).
   Proof.
     intros Hk. unfold convert_import.
     rewrite <- (position_brel (fun b => kin (bk b) [KLeftParen; KImportItems]) _ _ 0 ltac:(psame) Hk).
